@@ -1,0 +1,48 @@
+//! Seams for deterministic-simulation checks (feature `verif`, off by default;
+//! nothing here is compiled otherwise). The function is defined by the
+//! verification harness the crate is linked into.
+
+unsafe extern "Rust" {
+    safe fn __compio_verif_choose(site: u32, n: usize) -> usize;
+}
+
+/// A set whose iteration order is decided by the harness. The order of a
+/// `HashSet` of operation keys depends on their addresses and on per-process
+/// random hasher keys, so it is neither repeatable nor explorable.
+#[derive(Debug)]
+pub(crate) struct OrderedSet<T>(Vec<T>);
+
+impl<T> Default for OrderedSet<T> {
+    fn default() -> Self {
+        Self(Vec::new())
+    }
+}
+
+impl<T: PartialEq> OrderedSet<T> {
+    pub(crate) fn new() -> Self {
+        Self::default()
+    }
+
+    pub(crate) fn insert(&mut self, value: T) -> bool {
+        if self.0.contains(&value) {
+            false
+        } else {
+            self.0.push(value);
+            true
+        }
+    }
+}
+
+impl<T> IntoIterator for OrderedSet<T> {
+    type IntoIter = std::vec::IntoIter<T>;
+    type Item = T;
+
+    fn into_iter(mut self) -> Self::IntoIter {
+        let n = self.0.len();
+        for i in 0..n.saturating_sub(1) {
+            let j = i + __compio_verif_choose(50, n - i).min(n - i - 1);
+            self.0.swap(i, j);
+        }
+        self.0.into_iter()
+    }
+}
